@@ -47,6 +47,9 @@ ConvBases == { b \in DOMAIN AsymBase : AsymBase[b].kty # "EC" \/ AsymBase[b].crv
 KeyConvCells ==
   { [op |-> "ToolKeyConv", key |-> AsymKey(b, p, NONE, NONE)] : b \in ConvBases, p \in {0, 1} }
   \cup { [op |-> "ToolKeyConv", key |-> OctKey(n, v, NONE, NONE)] : n \in {32, 33, 47, 48, 64, 100, 512}, v \in {"a", "b"} }
+  \* raw key files whose last / first octet is a newline, CR, NUL, space, '=' or 0xff: every octet is key material
+  \cup { [op |-> "ToolKeyConv", key |-> OctKey(n, v, NONE, NONE)] : n \in {32, 48, 65},
+           v \in {"a.end0a", "a.end0d", "a.end00", "a.end20", "a.end3d", "a.endff", "a.beg00", "a.beg0a", "a.beg20"} }
 \* several files in one invocation, every order of four key types (and a repeated type)
 MK == << OctKey(48, "a", NONE, NONE), AsymKey("rsa2048a", 1, NONE, NONE), AsymKey("p256zx", 0, NONE, NONE), AsymKey("ed25519a", 1, NONE, NONE) >>
 Perms4 == { p \in [1..4 -> 1..4] : \A i, j \in 1..4 : i # j => p[i] # p[j] }
